@@ -209,3 +209,116 @@ func c05LowerEqID(s string) bool {
 	}
 	return vfAnd(vfOr(s[0] == 'i', s[0] == 'I'), vfOr(s[1] == 'd', s[1] == 'D'))
 }
+
+func c08LowerByte(c byte) byte {
+	if vfAnd(c >= 'A', c <= 'Z') {
+		return c + 32
+	}
+	return c
+}
+
+// c08IDTarget: the table named by an ID type: the name minus an "id" affix (any case), when
+// something remains.
+func c08IDTarget(name string) string {
+	n := len(name)
+	if n <= 2 {
+		return ""
+	}
+	if vfFork(vfAnd(c08LowerByte(name[0]) == 'i', c08LowerByte(name[1]) == 'd')) {
+		return name[2:]
+	}
+	if vfFork(vfAnd(c08LowerByte(name[n-2]) == 'i', c08LowerByte(name[n-1]) == 'd')) {
+		return name[:n-2]
+	}
+	return ""
+}
+
+// HC08_foreignKeys: every foreign-key field gets exactly one FOREIGN KEY constraint to the table
+// named by its ID type or by its tag, with the tagged ON DELETE action; other fields get none.
+func HC08_foreignKeys() {
+	pkg := skelPkg()
+	named := skelNamed(pkg, "Item", types.NewStruct(nil, nil))
+	typeName := vfString("idtype", 1, vfParam("C08.idtype", 4), "Ident")
+	isInt64 := vfChoice("int64", 2) == 1
+	under := types.Typ[types.Int64]
+	if !isInt64 {
+		under = types.Typ[types.Int32]
+	}
+	ft := an.VfNewNamed(skelNamed(pkg, typeName, under), &an.Basic{B: under})
+	f := skelField{name: "Ref", typ: ft}
+	tagged := vfChoice("tag", 2) == 1
+	tagTarget := ""
+	if tagged {
+		tagTarget = vfString("tagtarget", 1, 2, "Ident")
+		f.extra += ` gomacro-sql-foreign:"` + tagTarget + `"`
+	}
+	onDelete := []string{"", "CASCADE", "SET NULL"}[vfChoice("ondelete", 3)]
+	if onDelete != "" {
+		f.extra += ` gomacro-sql-on-delete:"` + onDelete + `"`
+	}
+	st := skelStruct(pkg, named, []skelField{{name: "Id", typ: &an.Basic{B: types.Typ[types.Int64]}}, f, {name: "Name", typ: an.String}})
+	ana := &an.Analysis{Types: map[types.Type]an.Type{named: st}, Source: []types.Type{named}}
+
+	// reference
+	want := ""
+	if isInt64 {
+		if t := c08IDTarget(typeName); t != "" && vfFork(t != "Item") {
+			want = t
+		}
+	}
+	if want == "" && tagged {
+		if !isInt64 {
+			want = "<refused>" // a foreign key must be an int64: explicit diagnostic
+		} else {
+			want = tagTarget
+		}
+	}
+	var decls []gen.Declaration
+	panicked, rt, msg := vfCatch(func() { decls = Generate(ana) })
+	vfObserve("outcome", msg)
+	vfAssert(!rt, "C08/foreign-key-analysis-no-runtime-error")
+	if want == "<refused>" {
+		vfAssert(panicked, "C08/foreign-key-tag-on-a-non-int64-field-is-refused")
+		return
+	}
+	vfAssert(!panicked, "C08/schema-generation-completes")
+	if panicked {
+		return
+	}
+	text := skelDeclsText(decls)
+	vfObserve("text", text)
+	count := strings.Count(text, "FOREIGN KEY")
+	if want == "" {
+		vfAssert(count == 0, "C08/no-foreign-key-constraint-on-other-fields")
+		return
+	}
+	vfAssert(count == 1, "C08/exactly-one-foreign-key-constraint-per-foreign-key-field")
+	head := "ALTER TABLE items ADD FOREIGN KEY(Ref) REFERENCES " + gen.SQLTableName(sql.TableName(want))
+	i := strings.Index(text, head)
+	vfAssert(i >= 0, "C08/foreign-key-references-the-table-named-by-the-id-type-or-tag")
+	if i < 0 {
+		return
+	}
+	rest := text[i+len(head):]
+	rest = rest[:strings.Index(rest, ";")]
+	if onDelete == "" {
+		vfAssert(strings.TrimSpace(rest) == "", "C08/no-on-delete-action-unless-tagged")
+	} else {
+		vfAssert(strings.TrimSpace(rest) == "ON DELETE "+onDelete, "C08/on-delete-action-is-the-tagged-one")
+	}
+}
+
+// HC08_guards: a guard field carries a default and an equality CHECK with the same value.
+func HC08_guards() {
+	pkg := skelPkg()
+	named := skelNamed(pkg, "Item", types.NewStruct(nil, nil))
+	val := vfString("value", 1, vfParam("C08.guard", 2), "alnum")
+	name := vfString("name", 1, 2, "ident")
+	st := skelStruct(pkg, named, []skelField{{name: "Id", typ: &an.Basic{B: types.Typ[types.Int64]}},
+		{name: name, typ: an.Int, extra: ` gomacro-sql-guard:"` + val + `"`}})
+	ana := &an.Analysis{Types: map[types.Type]an.Type{named: st}, Source: []types.Type{named}}
+	text := skelDeclsText(Generate(ana))
+	vfObserve("text", text)
+	vfAssert(strings.Contains(text, "ALTER TABLE items ALTER COLUMN "+name+" SET DEFAULT "+val+";"), "C08/guard-field-has-a-default")
+	vfAssert(strings.Contains(text, "ALTER TABLE items ADD CHECK("+name+" = "+val+");"), "C08/guard-field-has-an-equality-check-with-the-same-value")
+}
